@@ -282,13 +282,30 @@ pub fn gen_tiny_spec(r: &mut Rng) -> SpriteSpec {
             ext: (0, 0),
         });
     }
-    let nl = 1 + r.usize_below(3);
+    // half of the tilemap sprites get a second tileset of exactly the same shape, used by a
+    // second tilemap layer
+    let two_ts = with_tilemap && r.chance(1, 2);
+    if two_ts {
+        s.tilesets.push(TilesetSpec {
+            id: 1,
+            flags: 6,
+            count: 2,
+            tw: 2,
+            th: 2,
+            base_index: 1,
+            name: "ts2".into(),
+            pixels: pixels(r, fmt, 8, &dom),
+            level: 100,
+            ext: (0, 0),
+        });
+    }
+    let nl = if two_ts { 2 + r.usize_below(2) } else { 1 + r.usize_below(3) };
     for i in 0..nl {
-        let kind = if with_tilemap && i == nl - 1 { 2 } else if i == 0 && nl == 3 { 1 } else { 0 };
+        let kind = if with_tilemap && (i == nl - 1 || (two_ts && i == nl - 2)) { 2 } else if i == 0 && nl == 3 && !two_ts { 1 } else { 0 };
         s.layers.push(LayerSpec {
             flags: 1,
             kind,
-            tileset: 0,
+            tileset: if two_ts && i == nl - 2 { 1 } else { 0 },
             level: if i > 0 && s.layers[0].kind == 1 { 1 } else { 0 },
             blend: r.below(19) as u16,
             opacity: if r.chance(1, 2) { 255 } else { r.byte() },
